@@ -50,7 +50,7 @@ func ruleC03R1(r *Run) {
 		}
 		max := maxOf(fn)
 		nPaths, bad := 0, ""
-		complete := p.pathsFrom(fn.Blocks[0], 5000, func(cp *cfgPath, back bool) {
+		judge := func(cp *cfgPath, back bool) {
 			if cp.infeasible || back {
 				return
 			}
@@ -86,7 +86,30 @@ func ruleC03R1(r *Run) {
 			if bad == "" {
 				bad = "path " + cp.String() + " returns " + p.expr(rv) + " without having established it is <= max"
 			}
-		})
+		}
+		complete := p.pathsFrom(fn.Blocks[0], 5000, judge)
+		// … and the paths that leave a loop after at least one way round it (a loop tested after the attempt): they
+		// start at the source of a back edge, so that the header's phis take the values of the attempt just made
+		// (only the paths that leave the loop at its header: inside the body the values of the next attempt carry
+		// the same SSA names as those of the attempt just made, and the entry enumeration covers the body already)
+		for _, l := range loopsOf(fn) {
+			l := l
+			for _, latch := range l.Header.Preds {
+				if l.Header.Dominates(latch) && complete {
+					complete = p.pathsFrom(latch, 5000, func(cp *cfgPath, back bool) {
+						if len(cp.blocks) < 3 || cp.blocks[1] != l.Header {
+							return
+						}
+						for _, b := range cp.blocks[2:] {
+							if l.Body[b] {
+								return
+							}
+						}
+						judge(cp, back)
+					})
+				}
+			}
+		}
 		if !complete {
 			// loops make the enumeration start inside: fall back to dominance facts
 			bad, nPaths = "", 0
@@ -167,7 +190,16 @@ func ruleC03R1(r *Run) {
 			good := false
 			if isEx && ex.Index == 0 {
 				for _, g := range guardsOf(ret.Block()) {
-					if e2, ok := p.resolve(g.Cond).(*ssa.Extract); ok && g.Pol && e2.Tuple == ex.Tuple && e2.Index == 1 {
+					// ok, or the negation of !ok (a `discard := !ok` local tested false)
+					cond, pol := g.Cond, g.Pol
+					for k := 0; k < 3; k++ {
+						if u, isNot := p.resolve(cond).(*ssa.UnOp); isNot && u.Op == token.NOT {
+							cond, pol = u.X, !pol
+							continue
+						}
+						break
+					}
+					if e2, ok := p.resolve(cond).(*ssa.Extract); ok && pol && e2.Tuple == ex.Tuple && e2.Index == 1 {
 						good = true
 					}
 				}
@@ -376,10 +408,23 @@ func ruleC03R3(r *Run) {
 			}
 		}
 		r.Check("genIndex#assert", fn.Pos(), ok, "genIndex asserts n > 0", "genIndex no longer asserts n > 0")
-		okRange := false
-		for _, cs := range p.callsTo(fn, "genUintN") {
-			if p.expr(cs.Arg(1)) == "conv<uint64>(($n - 1))" {
-				okRange = true
+		// through the dispatcher genUintN or directly on the cores, every draw against max = n-1
+		okRange, nDraws := true, 0
+		for _, cs := range p.callsTo(fn, "genUintN", "genUintNBiased", "genUintNUnbiased", "genUintNNoReject") {
+			nDraws++
+			if p.expr(cs.Arg(1)) != "conv<uint64>(($n - 1))" {
+				okRange = false
+			}
+		}
+		okRange = okRange && nDraws > 0
+		for _, ret := range returnsOf(fn) {
+			// … and what is returned is the drawn value
+			rv := p.stripConv(p.resolve(p.res(ret, 0)))
+			if e, isEx := rv.(*ssa.Extract); isEx {
+				rv = e.Tuple
+			}
+			if c, isCall := rv.(*ssa.Call); !isCall || !strings.HasPrefix(p.calleeKey(c.Common()), "genUintN") {
+				okRange = false
 			}
 		}
 		r.Check("genIndex#range", fn.Pos(), okRange, "genIndex draws in [0, n-1]", "genIndex no longer draws from [0, n-1]")
@@ -1235,11 +1280,34 @@ func ruleC03R9(r *Run) {
 		okMin, okMax, seenMin, seenMax := true, true, false, false
 		var pos token.Pos
 		nAlt := 0
+		// the coins of more: flipBiasedCoin(s, p) calls, or the coin written out as genFloat01(s) >= 1-p
+		type coin struct {
+			p  ssa.Value
+			at ssa.Instruction
+		}
+		var coins []coin
 		for _, cs := range p.callsTo(fn, "flipBiasedCoin") {
-			pos = cs.Instr.Pos()
-			for _, a := range p.alternatives(cs.Arg(1), 0) {
+			coins = append(coins, coin{cs.Arg(1), cs.Instr})
+		}
+		for _, b := range p.body(fn) {
+			for _, in := range b.Instrs {
+				bo, ok := in.(*ssa.BinOp)
+				if !ok || bo.Op != token.GEQ {
+					continue
+				}
+				c, isCall := p.resolve(bo.X).(*ssa.Call)
+				sub, isSub := p.resolve(bo.Y).(*ssa.BinOp)
+				if !isCall || !isSub || p.calleeKey(c.Common()) != "genFloat01" || sub.Op != token.SUB || p.expr(sub.X) != "1" {
+					continue
+				}
+				coins = append(coins, coin{sub.Y, in})
+			}
+		}
+		for _, cn := range coins {
+			pos = cn.at.Pos()
+			for _, a := range p.alternatives(cn.p, 0) {
 				nAlt++
-				facts := append(append([]rel{}, a.Facts...), p.facts(cs.Instr)...)
+				facts := append(append([]rel{}, a.Facts...), p.facts(cn.at)...)
 				c, isC := p.resolve(a.Val).(*ssa.Const)
 				if holds(facts, "$r.count", "<", "$r.minCount") {
 					seenMin = true
